@@ -76,6 +76,8 @@ def run(tier, seed, replay=None):
     quiet_logging()
     chk = Check("C01", tier, seed)
     rng = random.Random(seed)
+    if replay:
+        return do_replay(chk, replay)
     model_check(chk, tier)
 
     traces, meta = [], {}
@@ -179,3 +181,27 @@ def classify(verdict, trace, pos):
             return "run_created_event_overtakes_prerun_tie"
         return "order"
     return verdict[5:]
+
+
+def do_replay(chk, path):
+    """Re-execute a saved case on the real engine and judge it again with EngineTrace.tla."""
+    import json
+    m = json.loads(open(path).read())["replay"]["meta"]
+    prog = Program(m["events"], m["end_t"])
+    labels, probe, w, err = run_program(prog, form=m["form"], control=m["control"], step_ns=m["step_ns"],
+                                        early=m.get("early", 0), prior=m.get("prior", 0))
+    end_ns = None if prog.end_t == INF else prog.end_t * m["step_ns"]
+    tr = to_trace(1, probe.log, end_ns)
+    verdicts, results = tlc.validate_traces(SPEC / "EngineTrace.tla", [tr], label="C01_replay")
+    for r in results:
+        chk.add_tlc("EngineTrace replay", r)
+    chk.impl_traces = 1
+    v, pos = verdicts[1]
+    if err:
+        chk.violation(f"exception:{err.split(':')[0]}", f"real engine raised {err}", {"meta": m})
+    if v.startswith("PROP:"):
+        chk.violation(classify(v, tr, pos), f"{v} at record {pos}", {"meta": dict(m, delivered=labels), "trace": tr})
+    elif v != "ACCEPT":
+        chk.note_drift(f"replay: {v} at {pos}")
+    chk.sample({"trace": tr})
+    return chk.finish()
